@@ -342,7 +342,7 @@ package generator
 //@   shape t.Type = strs() | strs(string) | strs(integer) | strs(array) | strs(object) | strs(array,null) | strs(null,array) | strs(null,string) | strs(string,integer)
 //@   shape t.Items = nil | new
 //@   shape t.Format = "" | "date-time"
-//@   assigns *g.output.file
+//@   assigns g.output.file.Package.Imports
 //@   ensures [C01] format-types-bring-their-import: t.Enum == nil && t.Ref == "" && contains_str(t.Type, "string") && !contains_str(t.Type, "integer") && t.Format == "date-time" && !t.subSchemaTypeElem && result1 == nil ==> imports_have(g.output.file.Package.Imports, "time")
 //@   ensures [C18,C08] empty-enum-fails: t.Enum != nil && len(t.Enum) == 0 ==> result1 != nil
 //@   ensures [C07,C03,C02] array-arm: t.Enum == nil && t.Ref == "" && len(t.Type) >= 1 && (t.Type[0] == "array" || (len(t.Type) == 2 && t.Type[0] == "null" && t.Type[1] == "array")) && result1 == nil
